@@ -1593,6 +1593,7 @@ def chain(*oracles):
         f2.pop("resolved", None)
         if gargs is not None:
             f2["gargs"] = gargs
+            f2.pop("cgargs", None)       # (the sugar's own instantiated arguments are not the accessor's)
         return f2
 
     def o(interp, env, f, args, t, bb, path):
